@@ -58,7 +58,7 @@ SameLevel(logged, model) ==
 SameIndexAs(Bd, m) == /\ Len(Bd.levels) = Len(m)
                       /\ \A i \in 1..Len(m) : SameLevel(Bd.levels[i], m[i])
 SameIndex(Bd, a) == \E down \in BOOLEAN : SameIndexAs(Bd, BuildIndexP(a, R.eps, R.epsrec, R.sent, R.chunks, down))
-Modelled(a) == Offset /\ R.cls \in {"PGMIndex", "CApi"} /\ Len(a) <= MaxModelN /\ R.sent <= 30000
+Modelled(a) == Offset /\ R.cls = "PGMIndex" /\ Len(a) <= MaxModelN /\ R.sent <= 30000
 
 TBuild ==
   /\ IsEvent("Build")
@@ -67,6 +67,7 @@ TBuild ==
          okData == Len(a) >= 1 /\ Sorted(a) /\ a[Len(a)] < R.sent
      IN /\ nviol' = nviol + CountFailed(<<
               <<okData => Ev.out = "ok", "C20", "valid_data_rejected">>,
+              <<(~okData /\ Len(a) >= 1 /\ Sorted(a)) => Ev.out # "ok", "C20", "reserved_key_indexed">>,
               <<(Ev.out = "ok" /\ R.cls = "PGMIndex") =>
                    (\A i \in 1..Len(Ev.levels) : Ev.levels[i].keys[Len(Ev.levels[i].keys)] = R.sent), "C17", "level_without_sentinel">> >>, 1)
         /\ IF Ev.out = "ok" /\ Modelled(a) /\ ~SameIndex(Ev, a)
